@@ -857,4 +857,41 @@ pub mod verif_hooks {
     pub fn extract_title(line: &str) -> Option<(String, String)> {
         super::extract_title(line)
     }
+
+    /// Runs the tokenizer over a document: per token its kind, the number of document lines it
+    /// stands for and the (index, content) pairs it carries
+    pub fn tokenize(
+        text: &str,
+        languages: &[&str],
+    ) -> Vec<(&'static str, usize, Vec<(usize, String)>)> {
+        super::MarkdownIterator::new(languages, text.lines())
+            .map(|token| match token {
+                super::MarkdownToken::Line(index, line) => ("line", 1, vec![(index, line)]),
+                super::MarkdownToken::DocumentConfig(lines) => ("config", lines.len() + 2, lines),
+                super::MarkdownToken::VerbatimCodeBlock {
+                    starting_line_number,
+                    language: _,
+                    lines,
+                } => (
+                    "verbatim",
+                    lines.len(),
+                    lines
+                        .into_iter()
+                        .enumerate()
+                        .map(|(offset, line)| (starting_line_number + offset, line))
+                        .collect(),
+                ),
+                super::MarkdownToken::TestCodeBlock {
+                    language: _,
+                    config_lines: _,
+                    comment_lines,
+                    code_lines,
+                } => (
+                    "test",
+                    comment_lines.len() + code_lines.len() + 2,
+                    comment_lines.into_iter().chain(code_lines).collect(),
+                ),
+            })
+            .collect()
+    }
 }
